@@ -194,6 +194,22 @@ def r1(chk, repo):
             why = (f"`{futs}.{c.func.attr}` is reached only where "
                    f"`{futs}.done()` was tested false")
             if not ok:
+                # the other spelling: complete, and ignore the refusal
+                st_ = stmt_of(c)
+                tr = getattr(st_, "_parent", None)
+                if isinstance(tr, ast.Try) and st_ in tr.body and len(
+                        tr.body) == 1 and any(
+                            h.type is not None and "InvalidStateError" in
+                            unparse(h.type) and not any(
+                                isinstance(x, ast.Raise)
+                                for b in h.body for x in ast.walk(b))
+                            for h in tr.handlers):
+                    chk.ob(rule, sym, f"{futs}.{c.func.attr}("
+                           f"{short_args(c)}) tolerates a completed future",
+                           True, c, "InvalidStateError is caught around "
+                           "this one call")
+                    continue
+            if not ok:
                 why = (f"`{futs}.{c.func.attr}(...)` is not guarded by `not "
                        f"{futs}.done()`: a request that was cancelled (or "
                        f"already answered) raises InvalidStateError here, and "
